@@ -71,3 +71,90 @@ fn parse_file_body(k: usize) {
     kani::cover!(true);
 }
 //@chunks 4 c10_parse_file parse_file_body #[kani::proof] #[kani::unwind(140)] #[kani::stub(std::str::from_utf8, stub_from_utf8)]
+
+// ---------------------------------------------------------------- decoded parts -> typed values (Multipart::next + DeserializeFilesOrField)
+use serde::de::{SeqAccess, Deserializer as _, IntoDeserializer as _};
+fn one(b: &'static [u8; 4], i: usize) -> &'static [u8] { &b[i..i + 1] }
+fn ascii(b: &'static [u8; 4], i: usize) -> &'static str { unsafe { std::str::from_utf8_unchecked(&b[i..i + 1]) } }
+fn parts_of(n: usize, names: &'static [u8; 4], contents: &'static [u8; 4]) -> Multipart<'static> {
+    // submission order: a text field `t`, then n files under the one name `f` (filename i = names[i], content i = contents[i])
+    let mut parts: Vec<Part<'static>> = Vec::with_capacity(6);
+    parts.push(Part::Text { name: "t", text: "x" });
+    let mut i = 0;
+    while i < n { parts.push(Part::File { name: "f", file: File { filename: ascii(names, i), mimetype: "a/b", content: one(contents, i) } }); i += 1; }
+    Multipart(parts)
+}
+/// several files under one name are handed to the target type in SUBMISSION order, each with its own filename and byte-exact content; n = 1..=4
+fn files_in_order_body(k: usize) {
+    let n = k + 1;
+    let names: &'static [u8; 4] = Box::leak(Box::new(kani::any()));
+    let contents: &'static [u8; 4] = Box::leak(Box::new(kani::any()));
+    kani::assume(names[0] < 128 && names[1] < 128 && names[2] < 128 && names[3] < 128);
+    let mut m = parts_of(n, names, contents);
+    let nx = m.next();
+    assert!(matches!(&nx, Some(Next { name, item: TextOrFiles::Files(fs) }) if eqb(name.as_bytes(), b"f") && fs.len() == n), "multipart: all files submitted under one name are grouped under that name");
+    let mut d = nx.unwrap().item.into_deserializer();
+    let mut i = 0;
+    while i < n {
+        let f: Result<Option<File<'static>>, Error> = d.next_element_seed(std::marker::PhantomData::<File<'static>>);
+        assert!(matches!(&f, Ok(Some(f)) if eqb(f.filename.as_bytes(), one(names, i)) && eqb(f.content, one(contents, i)) && eqb(f.mimetype.as_bytes(), b"a/b")),
+            "multipart: the i-th decoded file is the i-th submitted file (filename, media type, content byte-exact)");
+        i += 1;
+    }
+    let end: Result<Option<File<'static>>, Error> = d.next_element_seed(std::marker::PhantomData::<File<'static>>);
+    assert!(matches!(end, Ok(None)), "multipart: no file beyond the submitted ones");
+    let rest = m.next();
+    assert!(matches!(&rest, Some(Next { name, item: TextOrFiles::Text(t) }) if eqb(name.as_bytes(), b"t") && eqb(t.as_bytes(), b"x")), "multipart: the text field is still delivered, as text");
+    assert!(m.next().is_none(), "multipart: nothing else");
+    kani::cover!(true);
+}
+//@chunks 4 c10_files_in_order files_in_order_body #[kani::proof] #[kani::unwind(12)] #[kani::stub(std::str::from_utf8, stub_from_utf8)]
+
+/// shape fit: Option<File> is None for an empty file input, Some(the file) for exactly one, an error for several; a single File is an error for several;
+/// a text field is never a file and a file never a text
+fn shape_fit_body(n: usize) {
+    let names: &'static [u8; 4] = Box::leak(Box::new(kani::any()));
+    let contents: &'static [u8; 4] = Box::leak(Box::new(kani::any()));
+    kani::assume(names[0] < 128 && names[1] < 128 && names[2] < 128 && names[3] < 128);
+    let item = |n: usize| -> TextOrFiles<'static> {
+        if n == 0 {
+            // an empty file input: one part with empty filename and empty content
+            let mut m = Multipart(vec![Part::File { name: "f", file: File { filename: "", mimetype: "application/octet-stream", content: b"" } }]);
+            m.next().unwrap().item
+        } else { let mut m = parts_of(n, names, contents); m.next().unwrap().item }
+    };
+    let opt: Result<Option<File<'static>>, Error> = serde::Deserialize::deserialize(item(n).into_deserializer());
+    match n {
+        0 => assert!(matches!(opt, Ok(None)), "multipart: an empty file input decodes to an absent value"),
+        1 => assert!(matches!(&opt, Ok(Some(f)) if eqb(f.filename.as_bytes(), one(names, 0)) && eqb(f.content, one(contents, 0))), "multipart: exactly one file decodes to Some(that file)"),
+        _ => assert!(opt.is_err(), "multipart: several files do not fit Option<File>: an error, never one of them"),
+    }
+    let single: Result<File<'static>, Error> = serde::Deserialize::deserialize(item(n).into_deserializer());
+    match n {
+        1 => assert!(matches!(&single, Ok(f) if eqb(f.filename.as_bytes(), one(names, 0)) && eqb(f.content, one(contents, 0))), "multipart: exactly one file decodes to that file"),
+        _ => assert!(single.is_err(), "multipart: zero or several files do not fit a single File: an error, never a wrong value"),
+    }
+    let as_text: Result<&'static str, Error> = serde::Deserialize::deserialize(item(n).into_deserializer());
+    assert!(as_text.is_err(), "multipart: a file part does not fit a text target");
+    let as_file: Result<File<'static>, Error> = serde::Deserialize::deserialize(TextOrFiles::Text("x").into_deserializer());
+    assert!(as_file.is_err(), "multipart: a text field does not fit a file target");
+    kani::cover!(true);
+}
+//@chunks 3 c10_shape_fit shape_fit_body #[kani::proof] #[kani::unwind(12)] #[kani::stub(std::str::from_utf8, stub_from_utf8)]
+
+/// the parser keeps submission order: a concrete conforming body with a text field and three files under one name (a symbolic execution of
+/// the real parser on ONE input: the order of `parts` and grouping by next())
+#[kani::proof]
+#[kani::unwind(400)]
+#[kani::stub(std::str::from_utf8, stub_from_utf8)]
+fn c10_parse_three_files_template() {
+    const BODY: &[u8] = b"--b\r\nContent-Disposition: form-data; name=\"t\"\r\n\r\nx\r\n--b\r\nContent-Disposition: form-data; name=\"f\"; filename=\"1\"\r\nContent-Type: a/b\r\n\r\nA\r\n--b\r\nContent-Disposition: form-data; name=\"f\"; filename=\"2\"\r\nContent-Type: a/b\r\n\r\nB\r\n--b\r\nContent-Disposition: form-data; name=\"f\"; filename=\"3\"\r\nContent-Type: a/b\r\n\r\nC\r\n--b--\r\n";
+    let r = Multipart::parse(BODY);
+    assert!(r.is_ok(), "multipart: the conforming body parses");
+    let m = r.unwrap();
+    assert!(m.0.len() == 4, "multipart: four parts");
+    assert!(matches!(&m.0[0], Part::Text { name, text } if eqb(name.as_bytes(), b"t") && eqb(text.as_bytes(), b"x")), "multipart: parts are kept in submission order (text field first)");
+    assert!(matches!(&m.0[1], Part::File { file, .. } if eqb(file.filename.as_bytes(), b"1") && eqb(file.content, b"A")), "multipart: first file second");
+    assert!(matches!(&m.0[2], Part::File { file, .. } if eqb(file.filename.as_bytes(), b"2") && eqb(file.content, b"B")), "multipart: second file third");
+    assert!(matches!(&m.0[3], Part::File { file, .. } if eqb(file.filename.as_bytes(), b"3") && eqb(file.content, b"C")), "multipart: third file last");
+}
